@@ -270,7 +270,7 @@ def gen_view(rng, w, nops):
 def gen_cases(rng, tier, boost=1):
     cases = []
     dist = {}
-    scale = (1 if tier == "quick" else 12) * boost
+    scale = (2 if tier == "quick" else 12) * boost
     plan = [("ai", 0, 900), ("as", 0, 900)]
     for w in range(3):
         plan += [("s", w, 700), ("t", w, 700), ("v", w, 120)]
@@ -476,7 +476,7 @@ def check(tier):
         "crashes": len(r.crashes),
     })
     rep.assumptions = [
-        "the theorems are about coq/SeqModel.v (the code after findings D18, D19, D20, D25, D40, D41); the C++ is tied by the differential run reported here (finite)",
+        "the theorems are about coq/SeqModel.v (the code after findings D18, D19, D20, D25, D50, D51); the C++ is tied by the differential run reported here (finite)",
         "Array<String<char>> elements are modelled as values (their own storage is C16's concern; the driver runs under the leak checker)",
         "self-move (a += Move(a), copy/move construction from itself) is outside the modelled domain",
         "LP64 little-endian, SizeT = 32 bit; lengths far below 2^32",
